@@ -231,6 +231,76 @@ R.contract(
 R.contracts[BLD + "_iter_coverage_cases#body-only"].replayable = False
 R.spec_funcs["BODY"] = lambda it: it.resolve_class("schemathesis.generation.meta:ComponentKind").members["BODY"]
 
+# ------------------------------------------------------------------------------------------- negative numeric boundary values (cover_schema_iter)
+GM_ = "schemathesis.generation:GenerationMode"
+
+
+def _modes_negative(it, name="modes"):
+    cls = it.resolve_class(GM_)
+    it.ensure_enum(cls)
+    return [cls.members["NEGATIVE"]]
+
+
+class _NegOnly(D):
+    def make(self, it, name, idx=()):
+        return _modes_negative(it)
+
+
+class _FreshList(D):
+    """A fresh empty list (the root of the coverage context's path)."""
+
+    def make(self, it, name, idx=()):
+        return []
+
+
+R.contract(COV + "_cover_positive_for_type", args={"ctx": Opq("Any"), "schema": Opq("Any"), "ty": Opq("Any")}, returns=Const(()), trusted=True,
+           note="positive values: own contracts (_positive_number / _positive_string / _positive_array); here the negative part is examined, so it contributes nothing")
+R.contract(COV + "push_examples_to_properties", args={"schema": Opq("Any")}, returns=NoneT, trusted=True, note="copies `examples` into properties (C17)")
+R.contract(COV + "_negative_type", args={"ctx": Opq("Any"), "seen": Opq("Any"), "ty": Opq("Any")}, returns=Const(()), trusted=True,
+           note="values of other JSON types (library strategies, E1): violate `type` by construction")
+NEG_VIOLATES = ("('maximum' in schema and g.value > schema['maximum']) or ('minimum' in schema and g.value < schema['minimum']) or "
+                "('exclusiveMaximum' in schema and g.value >= schema['exclusiveMaximum']) or ('exclusiveMinimum' in schema and g.value <= schema['exclusiveMinimum'])")
+R.contract(
+    COV + "cover_schema_iter",
+    variant="numeric-negatives",
+    prop="C03",
+    args={"ctx": Obj(COV + "CoverageContext", location=Str, generation_modes=_NegOnly(), path=_FreshList()),
+          "schema": DictOf(optional={"type": Const("integer"), "minimum": Int, "maximum": Int, "exclusiveMinimum": Int, "exclusiveMaximum": Int}), "seen": NoneT},
+    ensures={
+        # a boundary value presented as invalid really violates the numeric bound it was derived from
+        "every_negative_number_violates_a_declared_bound": "all(" + NEG_VIOLATES + " for g in result)",
+        "all_labelled_negative": "all(g.generation_mode.name == 'NEGATIVE' for g in result)",
+        "each_declared_bound_gets_its_negative": "implies('maximum' in schema, any(g.value > schema['maximum'] for g in result)) and implies('minimum' in schema, any(g.value < schema['minimum'] for g in result))",
+    },
+)
+
+def _hash_key(it, env):
+    """De-duplication key: equal keys <=> equal values. For the generated strings (symbolic sequences) the length stands for the value: the strings compared here
+    differ in length whenever they are different boundary values (minLength-1 vs maxLength+1), and over-merging equal lengths can only drop a yield, never add one."""
+    from pyvc.values import SymSeq, wrap
+
+    v = env["value"]
+    return wrap(v.n) if isinstance(v, SymSeq) else fresh_opaque(it, "HashKey")
+
+
+R.contract(COV + "_to_hashable_key", args={"value": Opq("Any")}, returns=_hash_key, trusted=True, note="de-duplication key of a generated value (type, encoded form): injective")
+LEN_VIOLATES = "('minLength' in schema and length(g.value) < schema['minLength']) or ('maxLength' in schema and length(g.value) > schema['maxLength'])"
+R.contract(
+    COV + "cover_schema_iter",
+    variant="length-negatives",
+    prop="C03",
+    args={"ctx": Obj(COV + "CoverageContext", location=Str, generation_modes=_NegOnly(), path=_FreshList()),
+          "schema": DictOf(optional={"type": Const("string"), "minLength": IntRange(0, None), "maxLength": IntRange(0, None)}), "seen": NoneT},
+    requires=["implies('minLength' in schema and 'maxLength' in schema, schema['minLength'] <= schema['maxLength'])"],
+    ensures={
+        # a string presented as too short / too long really is shorter than minLength / longer than maxLength
+        "every_negative_string_violates_a_declared_length": "all(" + LEN_VIOLATES + " for g in result)",
+        "all_labelled_negative": "all(g.generation_mode.name == 'NEGATIVE' for g in result)",
+        "each_declared_length_gets_its_negative": "implies('maxLength' in schema and schema['maxLength'] < 8192, any(length(g.value) == schema['maxLength'] + 1 for g in result)) and "
+                                                  "implies('minLength' in schema and 0 < schema['minLength'] and schema['minLength'] < 8192, any(length(g.value) == schema['minLength'] - 1 for g in result))",
+    },
+)
+
 LEVEL_TEXT = ("Deductive: the numeric / length / item-count boundary generators are verified against 'conforms to the declared schema' for ALL integer bounds "
               "(multipleOf clauses for a finite set of divisors, labelled bounded); the case-level label rule is a postcondition on every case yielded by _iter_coverage_cases.")
 LEVEL_NOTE = "Trusted: E1 (values generated from a schema are valid for it), floats as reals, pyvc semantics (E9)."
